@@ -70,6 +70,9 @@ Next ==
                     /\ st' = [cfg |-> e.cfg, store |-> e.store, nnew |-> 0, cer |-> Idle, lost |-> FALSE]
                     /\ ci' = 0
                     /\ UNCHANGED <<viol, drift>>
+               [] e.ev = "Reconfig" ->
+                    /\ st' = [st EXCEPT !.cfg = e.d.cfg]
+                    /\ UNCHANGED <<viol, drift, ci>>
                [] e.ev = "Begin" ->
                     /\ st' = [st EXCEPT !.cer = IF e.d.api = "client" THEN CL!NewCer(e.d.op, e.d.req, e.d.env)
                                                 ELSE C!NewCer(e.d.api, e.d.op, e.d.req, e.d.env)]
